@@ -139,3 +139,24 @@ Proof.
       with ((be32 (length (enc (s_b s))) ++ enc (s_b s)) ++ flat_map (fun s => be32 (length (enc (s_b s))) ++ enc (s_b s)) r).
     rewrite !app_length, IH. simpl. lia.
 Qed.
+
+(* a bundle nested in a MESSAGE (completion message): _build_msg hands the message's send instant T to
+   _build_bundle for it, with no enclosing bundle to compare with; what the bytes then carry *)
+Lemma msg_nested_stamp md T lat es sb : stamp_bundle md T lat es = Some sb ->
+  stamped md T (EBundle lat es) sb /\ nest_ok sb /\
+  (exists ss, sb = SBundle (stamp_imm md lat) (stamp_time md T lat) (stamp_tag md T lat) ss) /\
+  (forall off, md = MRt off ->
+     (lat_immediate lat = true -> stamp_tag md T lat = 1%Z /\ stamp_imm md lat = true) /\
+     (forall l, lat = Some l -> 0 <= l ->
+        stamp_tag md T lat = elapsed_to_osc off (l + T) /\ stamp_imm md lat = false)) /\
+  (forall inside, md = MNrt inside ->
+     stamp_tag md T lat = Qtrunc ((lat_val lat + (if inside then T else 0)) * two32) /\ stamp_imm md lat = false).
+Proof.
+  intros H. destruct (stamp_bundle_spec _ _ _ _ _ H) as [A B].
+  destruct (stamp_bundle_shape _ _ _ _ _ H) as (ss & E & _ & _).
+  split; [exact A|]. split; [exact B|]. split; [exists ss; exact E|]. split.
+  - intros off ->. split.
+    + intros Hi. apply stamp_rt_immediate. exact Hi.
+    + intros l -> Hl. split; [apply stamp_tag_rt; exact Hl|]. unfold stamp_imm. apply lat_immediate_false. exact Hl.
+  - intros inside ->. split; [apply stamp_tag_nrt|reflexivity].
+Qed.
